@@ -514,7 +514,7 @@ def main():
     chk = R.Check(PROP)
     binary = DM.private_copy(chk.build("asan"), chk.workroot)
     specs = all_specs()
-    reps = 1 if chk.tier == "quick" else 14
+    reps = 3 if chk.tier == "quick" else 14
     reps = max(1, int(round(reps * chk.args.scale))) if chk.args.scale >= 1 \
         else 1
     work = [(s, rep) for rep in range(reps) for s in specs]
